@@ -234,3 +234,11 @@ def c11(tier, seed):
 
 
 CHECKS.update({"C11": c11})
+
+
+def c17(tier, seed):
+    import c17 as m
+    return m.run(tier, seed)
+
+
+CHECKS.update({"C17": c17})
